@@ -171,6 +171,11 @@ def make_builtins(X):
 
     @reg('dict')
     def _dict(X, args, kw, node):
+        ov = getattr(X.spec, 'builtin_overrides', {}).get('dict')
+        if ov is not None:
+            r = ov(X, args, kw, node)
+            if r is not None:
+                return r
         if not args and not kw:
             return Con({})
         if args:
@@ -198,6 +203,11 @@ def make_builtins(X):
 
     @reg('zip')
     def _zip(X, args, kw, node):
+        ov = getattr(X.spec, 'builtin_overrides', {}).get('zip')
+        if ov is not None:
+            r = ov(X, args, kw, node)
+            if r is not None:
+                return r
         seqs = [X.iter_concrete(a, node) for a in args]
         n = min(len(s) for s in seqs) if seqs else 0
         return TupV([TupV([s[i] for s in seqs]) for i in range(n)], is_list=True)
